@@ -1634,12 +1634,21 @@ func (r *Raft) appendEntries(rpc RPC, a *AppendEntriesRequest) {
 	// Update the commit index
 	if a.LeaderCommitIndex > 0 && a.LeaderCommitIndex > r.getCommitIndex() {
 		start := time.Now()
-		idx := min(a.LeaderCommitIndex, r.getLastIndex())
-		r.setCommitIndex(idx)
-		if r.configurations.latestIndex <= idx {
-			r.setCommittedConfiguration(r.configurations.latest, r.configurations.latestIndex)
+		// Only the log up to the last entry this request covers is known to
+		// match the leader's. Our log may reach further with entries of an
+		// older leader that this leader is about to overwrite.
+		lastVerified := a.PrevLogEntry
+		if n := len(a.Entries); n > 0 {
+			lastVerified = a.Entries[n-1].Index
 		}
-		r.processLogs(idx, nil)
+		idx := min(a.LeaderCommitIndex, min(lastVerified, r.getLastIndex()))
+		if idx > r.getCommitIndex() {
+			r.setCommitIndex(idx)
+			if r.configurations.latestIndex <= idx {
+				r.setCommittedConfiguration(r.configurations.latest, r.configurations.latestIndex)
+			}
+			r.processLogs(idx, nil)
+		}
 		metrics.MeasureSince([]string{"raft", "rpc", "appendEntries", "processLogs"}, start)
 	}
 
